@@ -3,6 +3,8 @@ package constraint
 import (
 	"fmt"
 	"sync"
+
+	"github.com/consensys/gnark/verifhook"
 )
 
 // TODO @gbotrel this shouldn't be there, but we need to figure out a clean way to serialize
@@ -31,8 +33,10 @@ var _ BlueprintStateful[U64] = (*BlueprintLookupHint[U64])(nil)
 func (b *BlueprintLookupHint[E]) Solve(s Solver[E], inst Instruction) error {
 	nbEntries := int(inst.Calldata[1])
 
+	verifhook.Gate("lookup.enter", b, len(b.cachedEntries), nbEntries)
 	// check if we already cached the entries
 	b.lock.Lock()
+	verifhook.Gate("lookup.locked", b, len(b.cachedEntries), nbEntries)
 	if len(b.cachedEntries) < nbEntries {
 		// we need to cache more entries
 		offset, delta := b.cachedOffset, 0
@@ -44,10 +48,13 @@ func (b *BlueprintLookupHint[E]) Solve(s Solver[E], inst Instruction) error {
 		}
 		b.cachedOffset = offset
 	}
+	verifhook.Gate("lookup.extended", b, len(b.cachedEntries), nbEntries)
 	b.lock.Unlock()
+	verifhook.Gate("lookup.unlocked", b, len(b.cachedEntries), nbEntries)
 
 	// we only append to the entries and never resize the slice; so we can access these indices safely
 	entries := b.cachedEntries[:nbEntries]
+	verifhook.Gate("lookup.read", b, len(entries), nbEntries)
 
 	nbInputs := int(inst.Calldata[2])
 
@@ -74,6 +81,7 @@ func (b *BlueprintLookupHint[E]) Solve(s Solver[E], inst Instruction) error {
 }
 
 func (b *BlueprintLookupHint[E]) Reset() {
+	verifhook.Gate("lookup.reset.enter", b, len(b.cachedEntries), 0)
 	// first we need to compute the capacity; that is 1 element per linear expression in the entries.
 	// this must be accurate since solver is multi threaded and we don't want to resize the slice
 	// while the solver is running.
@@ -86,6 +94,7 @@ func (b *BlueprintLookupHint[E]) Reset() {
 
 	b.cachedEntries = make([]E, 0, capacity)
 	b.cachedOffset = 0
+	verifhook.Gate("lookup.reset.done", b, 0, 0)
 }
 
 func (b *BlueprintLookupHint[E]) CalldataSize() int {
